@@ -90,7 +90,7 @@ theorem cut_inv {f : Forest} (hi : f.Inv) {c : Nat} {path l C r} (lc : Loc f.roo
     (hcut : f.CutOK c) : ({ f with roots := plug path (l ++ r) } : Forest).Inv := by
   obtain ⟨k1, k2⟩ := hi.kids_at lc.eq
   apply hi.edit (handles C) lc.eq
-  · simp only [handlesList_append, handlesList_cons, List.append_assoc]
+  · simp only [fi_handlesList_append, handlesList_cons, List.append_assoc]
     exact List.Perm.append_left _ List.perm_append_comm
   · cases hiv : innerValue path with
     | none => rfl
@@ -306,7 +306,7 @@ theorem checkedInsertAfter_inv {g : Forest} (hi : g.Inv) {ref c : Nat} {cv sv : 
     have hfin : rk c lr ++ rb c S :: t :: rk c rr = (rk c lr ++ [rb c S]) ++ t :: rk c rr := by simp
     rw [hfin]
     apply hi.place hi' hperm h1 h2 h3 h4 hroots
-    · simp only [handlesList_append, handlesList_cons, handlesList_nil, List.append_nil, List.append_assoc]
+    · simp only [fi_handlesList_append, handlesList_cons, handlesList_nil, List.append_nil, List.append_assoc]
       refine List.Perm.append_left _ (List.Perm.append_left _ ?_)
       exact List.perm_append_comm
     · cases hiv : innerValue (cutPath c path) with
@@ -368,7 +368,7 @@ theorem checkedInsertBefore_inv {g : Forest} (hi : g.Inv) {ref c : Nat} {cv sv :
     obtain ⟨k1, k2⟩ := hi'.kids_at hroots
     rw [h3] at k1 k2
     apply hi.place hi' hperm h1 h2 h3 h4 hroots
-    · simp only [handlesList_append, handlesList_cons, List.append_assoc]
+    · simp only [fi_handlesList_append, handlesList_cons, List.append_assoc]
       refine List.Perm.append_left _ ?_
       refine List.perm_append_comm.trans ?_
       simp only [List.append_assoc]
